@@ -94,6 +94,12 @@ def gen(chk):
             fl = STD & ~S.F_CONST
             sessions.append({"kind": k, "argv": ["--tx=" + c["spend"], "--txin=" + c["fund"], "--modify-flags=-CONST_SCRIPTCODE"],
                              "case": "spend id=%%s tx=%s txin=%s flags=%d ls=1 cmds=%%s" % (hx(c["spend"]), hx(c["fund"]), fl), "walk": walk()})
+    # tapscript spends whose commitment does NOT verify: the failing check is repeated by every further step and the marker stays on it
+    for k in ("p2tr-script", "p2tr-path", "p2tr-csa"):
+        for wn in ((0, 2) if q else (0, 1, 2, 3, 5)):
+            c = S.build(rng, k, ht=0, mutate="control", wn=wn)
+            sessions.append({"kind": k + "/badcommit", "argv": ["--tx=" + c["spend"], "--txin=" + c["fund"], "--modify-flags=-CONST_SCRIPTCODE"],
+                             "case": "spend id=%%s tx=%s txin=%s flags=%d ls=1 cmds=%%s" % (hx(c["spend"]), hx(c["fund"]), STD & ~S.F_CONST), "walk": ["s"] * 10})
     # pay-to-script-hash shaped outputs with the P2SH flag removed: the redeem script is neither executed nor listed
     for k in ("p2sh", "p2sh-codesep", "p2sh", "p2pkh"):
         for _ in range(2 if q else 20):
